@@ -14,19 +14,21 @@ import (
 	"verif/harness/hcommon"
 )
 
-// gateConn is a net.Conn that can hold back one particular Write (the
-// payload of a message) until released: a scheduler for the two goroutines that
-// write to a rawsocket connection.
+// gateConn is a net.Conn that records every Write call and can hold back one
+// particular call (the one whose bytes equal `hold`) until released: a
+// scheduler for the two goroutines that write to a rawsocket connection.
 type gateConn struct {
 	net.Conn
 	mu      sync.Mutex
 	hold    []byte
+	calls   [][]byte
 	reached chan struct{}
 	release chan struct{}
 }
 
 func (g *gateConn) Write(p []byte) (int, error) {
 	g.mu.Lock()
+	g.calls = append(g.calls, append([]byte(nil), p...))
 	held := g.hold != nil && bytes.Equal(p, g.hold)
 	if held {
 		g.hold = nil
@@ -39,84 +41,225 @@ func (g *gateConn) Write(p []byte) (int, error) {
 	return g.Conn.Write(p)
 }
 
-// runF18 probes finding F18: sendHandler writes a frame with two conn.Write
-// calls (header, payload) and recvHandler answers a PING from its own
-// goroutine with two more (PONG header, payload copy), with no lock between
-// them. The probe parks the sender goroutine between its two writes (net.Conn
-// permits concurrent Write calls; each call is atomic), lets a PING arrive and
-// looks at the byte stream the remote side receives.
-func runF18(_ *hcommon.RNG) {
-	in := map[string]any{"section": "f18"}
-	guard("f18", in, func() {
-		cli, srv := net.Pipe()
-		defer cli.Close()
-		g := &gateConn{Conn: srv, reached: make(chan struct{}), release: make(chan struct{})}
-		type res struct {
-			p   wamp.Peer
-			err error
-		}
-		done := make(chan res, 1)
-		go func() {
-			p, err := transport.AcceptRawSocket(g, quiet, 0, 4)
-			done <- res{p, err}
-		}()
-		_ = cli.SetDeadline(time.Now().Add(4 * wedge))
-		_, _ = cli.Write([]byte{0x7f, 0xf1, 0, 0})
-		var rep [4]byte
-		if _, err := io.ReadFull(cli, rep[:]); err != nil {
-			sum.Notes = append(sum.Notes, "f18: handshake failed: "+err.Error())
-			return
-		}
-		r := <-done
-		if r.err != nil {
-			sum.Notes = append(sum.Notes, "f18: handshake failed: "+r.err.Error())
-			return
-		}
-		defer r.p.Close()
-		_, ser, _ := serByName("json")
-		msg, payload, _ := sized(ser, 1, 64)
-		g.mu.Lock()
-		g.hold = payload
-		g.mu.Unlock()
-		r.p.Send() <- msg
+type f18Conn struct {
+	cli  net.Conn
+	g    *gateConn
+	peer wamp.Peer
+}
 
-		var wire []byte
-		var hdr [4]byte
-		_, _ = io.ReadFull(cli, hdr[:]) // the message header
-		wire = append(wire, hdr[:]...)
-		<-g.reached // the sender goroutine is now between header and payload
-		ping := []byte{1, 0, 0, 4, 'P', 'I', 'N', 'G'}
-		werr := make(chan error, 1)
-		go func() { _, err := cli.Write(ping); werr <- err }()
-		// does the PONG come out while the message payload is still owed?
-		_ = cli.SetReadDeadline(time.Now().Add(time.Second))
-		pong := make([]byte, 8)
-		n, _ := io.ReadFull(cli, pong)
-		wire = append(wire, pong[:n]...)
-		close(g.release)
-		_ = cli.SetReadDeadline(time.Now().Add(wedge))
-		rest := make([]byte, len(payload)+8-n)
-		m, _ := io.ReadFull(cli, rest)
-		wire = append(wire, rest[:m]...)
-		<-werr
-		note("f18", "gate")
-		interleaved := n == 8 && bytes.Equal(pong, []byte{2, 0, 0, 4, 'P', 'I', 'N', 'G'})
+func f18Setup(hold []byte) (*f18Conn, error) {
+	cli, srv := net.Pipe()
+	g := &gateConn{Conn: srv, hold: hold, reached: make(chan struct{}), release: make(chan struct{})}
+	type res struct {
+		p   wamp.Peer
+		err error
+	}
+	done := make(chan res, 1)
+	go func() {
+		p, err := transport.AcceptRawSocket(g, quiet, 0, 64)
+		done <- res{p, err}
+	}()
+	_ = cli.SetDeadline(time.Now().Add(4 * wedge))
+	if _, err := cli.Write([]byte{0x7f, 0xf1, 0, 0}); err != nil {
+		return nil, err
+	}
+	var rep [4]byte
+	if _, err := io.ReadFull(cli, rep[:]); err != nil {
+		return nil, err
+	}
+	r := <-done
+	if r.err != nil {
+		return nil, r.err
+	}
+	return &f18Conn{cli, g, r.p}, nil
+}
+
+func (c *f18Conn) close() {
+	c.cli.Close()
+	done := make(chan struct{})
+	go func() { c.peer.Close(); close(done) }()
+	select {
+	case <-done:
+	case <-time.After(wedge):
+	}
+}
+
+// readSome reads up to n bytes within d.
+func readSome(c net.Conn, n int, d time.Duration) []byte {
+	_ = c.SetReadDeadline(time.Now().Add(d))
+	b := make([]byte, n)
+	m, _ := io.ReadFull(c, b)
+	return b[:m]
+}
+
+// runF18: regression for finding F18. Before the fix sendHandler wrote a frame
+// with two conn.Write calls (header, payload) and recvHandler answered a PING
+// from its own goroutine with two more (PONG header, payload copy), with no
+// lock between them: net.Conn makes each call atomic, not the pair.
+//
+//	A  park the sender goroutine between header and payload (if it makes two
+//	   calls at all), let a PING arrive: the PONG must not come out inside the frame;
+//	B  park the reader goroutine between PONG header and PONG payload (if it
+//	   makes two calls), hand a message to Send(): it must not come out inside the PONG;
+//	C  free-running: messages and PINGs concurrently; every Write call on the
+//	   connection must be one whole frame and the other side must decode all of it.
+//
+// A recurrence is a spec violation: the concrete byte stream the other side
+// received is in the report, together with what the Lean reader makes of it.
+func runF18(rng *hcommon.RNG) {
+	_, ser, _ := serByName("json")
+	msg, payload, _ := sized(ser, 1, 64)
+	frame := append([]byte{0, 0, 0, byte(len(payload))}, payload...)
+	pingPayload := []byte("PING-PAYLOAD-16b")
+	ping := append([]byte{1, 0, 0, byte(len(pingPayload))}, pingPayload...)
+	pong := append([]byte{2, 0, 0, byte(len(pingPayload))}, pingPayload...)
+
+	report := func(scenario string, wire []byte, what string) {
 		model := driver([]string{fmt.Sprintf("stream %d %s", 1<<24, hx(wire))})[0]
-		intact := kv(model)["delivered"] == hx(payload)
-		sum.AddSample(map[string]any{"op": "f18 probe", "wire": hx(wire), "remote_reader_model": model,
-			"pong_between_header_and_payload": interleaved}, 20)
-		if interleaved {
-			sum.Count("f18:interleaving-reproduced")
-			d := fmt.Sprintf("F18: with the sender goroutine parked between conn.Write(header) and conn.Write(payload), a PING was answered "+
-				"inside the frame; the remote reader decodes the wire as: %s (message intact: %v)", model, intact)
-			sum.Notes = append(sum.Notes, d)
-			if *flagF18 {
-				sum.Disagreements = append(sum.Disagreements, hcommon.Disagreement{Input: in, Impl: hx(wire),
-					Model: "frames of the sender and PONGs of the reader never interleave", SpecViolation: true, Detail: d, Finding: "F18"})
+		in := map[string]any{"section": "f18", "scenario": scenario}
+		disagree("f18-spec", in, map[string]any{"wire_received_by_the_other_side": hx(wire), "other_side_decodes": model},
+			"frames of the sender and PONGs of the reader never interleave", true, what)
+	}
+
+	// A: sender parked between header and payload
+	guard("f18", map[string]any{"section": "f18", "scenario": "A"}, func() {
+		c, err := f18Setup(payload)
+		if err != nil {
+			sum.Notes = append(sum.Notes, "f18/A: handshake failed: "+err.Error())
+			return
+		}
+		defer c.close()
+		c.peer.Send() <- msg
+		wire := readSome(c.cli, 4, wedge)
+		rest := readSome(c.cli, len(payload), 400*time.Millisecond)
+		wire = append(wire, rest...)
+		note("f18", "A")
+		select {
+		case <-c.g.reached:
+			// two calls: the sender sits between them. Let a PING arrive.
+			sum.Count("f18:A-sender-makes-two-calls")
+			go func() { _, _ = c.cli.Write(ping) }()
+			got := readSome(c.cli, len(pong), time.Second)
+			wire = append(wire, got...)
+			close(c.g.release)
+			wire = append(wire, readSome(c.cli, len(payload)+len(pong)-len(got), wedge)...)
+			if bytes.Equal(got, pong) {
+				report("A", wire, "with the sender goroutine between conn.Write(header) and conn.Write(payload), a PING was answered inside the frame: the message is corrupted for the other side")
 			}
-		} else {
-			sum.Count("f18:not-reproduced")
-			sum.Notes = append(sum.Notes, "f18: the PONG did not overtake the pending payload (writers are serialised)")
+		default:
+			if !bytes.Equal(wire, frame) {
+				report("A", wire, "a single message did not arrive as one intact frame")
+			}
+			sum.Count("f18:A-frame-is-one-call")
 		}
 	})
+
+	// B: reader parked between PONG header and PONG payload
+	guard("f18", map[string]any{"section": "f18", "scenario": "B"}, func() {
+		c, err := f18Setup(pingPayload)
+		if err != nil {
+			sum.Notes = append(sum.Notes, "f18/B: handshake failed: "+err.Error())
+			return
+		}
+		defer c.close()
+		go func() { _, _ = c.cli.Write(ping) }()
+		wire := readSome(c.cli, 4, wedge)
+		rest := readSome(c.cli, len(pingPayload), 400*time.Millisecond)
+		wire = append(wire, rest...)
+		note("f18", "B")
+		select {
+		case <-c.g.reached:
+			sum.Count("f18:B-reader-makes-two-calls")
+			c.peer.Send() <- msg
+			got := readSome(c.cli, len(frame), time.Second)
+			wire = append(wire, got...)
+			close(c.g.release)
+			wire = append(wire, readSome(c.cli, len(frame)+len(pingPayload)-len(got), wedge)...)
+			if len(got) > 0 {
+				report("B", wire, "with the reader goroutine between the PONG header and the PONG payload, a message was written inside the PONG: the stream is corrupted for the other side")
+			}
+		default:
+			if !bytes.Equal(wire, pong) {
+				report("B", wire, "a PING was not answered by one intact PONG frame")
+			}
+			sum.Count("f18:B-pong-is-one-call")
+		}
+	})
+
+	// C: free-running traffic, every call a whole frame
+	guard("f18", map[string]any{"section": "f18", "scenario": "C"}, func() {
+		c, err := f18Setup(nil)
+		if err != nil {
+			sum.Notes = append(sum.Notes, "f18/C: handshake failed: "+err.Error())
+			return
+		}
+		defer c.close()
+		n := 40
+		if thorough {
+			n = 400
+		}
+		var want [][]byte
+		go func() {
+			for i := 0; i < n; i++ {
+				m, b, _ := sized(ser, i+1, 50+rng.Intn(400))
+				want = append(want, b)
+				c.peer.Send() <- m
+			}
+			c.peer.Send() <- &wamp.Goodbye{Reason: "c15.sentinel", Details: wamp.Dict{}}
+		}()
+		go func() {
+			for i := 0; i < n; i++ {
+				if _, err := c.cli.Write(ping); err != nil {
+					return
+				}
+			}
+		}()
+		sentinel, _ := ser.Serialize(&wamp.Goodbye{Reason: "c15.sentinel", Details: wamp.Dict{}})
+		var wire []byte
+		pongs := 0
+		buf := make([]byte, 1<<16)
+		_ = c.cli.SetReadDeadline(time.Now().Add(2 * wedge))
+		for !(bytes.Contains(wire, sentinel) && pongs >= n) {
+			k, err := c.cli.Read(buf)
+			wire = append(wire, buf[:k]...)
+			pongs = bytes.Count(wire, pong)
+			if err != nil {
+				break
+			}
+		}
+		note("f18", "C")
+		c.g.mu.Lock()
+		calls := c.g.calls[1:] // [0] is the handshake reply
+		c.g.mu.Unlock()
+		for _, call := range calls {
+			if len(call) < 4 || len(call) != 4+(int(call[1])<<16|int(call[2])<<8|int(call[3])) {
+				disagree("f18-calls", map[string]any{"section": "f18", "scenario": "C", "call": hx(call)}, hx(call), "one whole frame per Write call", false,
+					"a Write call on the connection is not one whole frame: another writer's frame can be scheduled inside it")
+				break
+			}
+		}
+		model := kv(driver([]string{fmt.Sprintf("stream %d %s", 1<<24, hx(wire))})[0])
+		var exp []string
+		for _, b := range append(want, sentinel) {
+			exp = append(exp, hx(b))
+		}
+		if model["delivered"] != joinSemi(exp) || model["state"] != "waiting:hdr0" {
+			report("C", wire, fmt.Sprintf("with %d messages and %d PINGs in flight the other side does not decode exactly the messages sent (state %s)", n, n, model["state"]))
+		}
+		sum.Count("f18:C-calls-checked")
+		sum.AddSample(map[string]any{"op": "f18 C", "write_calls": len(calls), "wire_bytes": len(wire)}, 30)
+	})
 }
+
+func joinSemi(xs []string) string {
+	if len(xs) == 0 {
+		return "-"
+	}
+	s := xs[0]
+	for _, x := range xs[1:] {
+		s += ";" + x
+	}
+	return s
+}
+
+var _ = hcommon.NewRNG
